@@ -105,7 +105,9 @@ func (this *LexPart) ExpandRegDefs() error {
 				case *LexRegDefId:
 					def, defined := this.RegDefs[t.Id]
 					if !defined {
-						continue
+						// (left alone, the reference would be resolved to a string literal of the syntax part that
+						// happens to be spelled like it, or stop the generator with a panic)
+						return fmt.Errorf("undefined regular definition %s", t.Id)
 					}
 					for _, id := range path {
 						if id == t.Id {
